@@ -18,8 +18,21 @@ pub fn default_opts() -> GenOpts {
     }
 }
 
+/// field contents without a number beyond f64 precision (a message carrying one is only counted as
+/// excluded by the message-level checks; C05 / C06 judge such numbers at field level): up to six draws
+pub fn short_numbers(_mt: &str, tag: &str, src: &mut Src) -> Option<(String, Vec<Comp>)> {
+    let sp = crate::fieldkit::spec_of_tag(tag)?;
+    for _ in 0..6 {
+        let g = sp.g.generate(src);
+        if !crate::refs::has_long_number(&g.text) {
+            return Some((g.text, g.comps));
+        }
+    }
+    None
+}
+
 pub fn gen_valid_msg(mt: &str, src: &mut Src) -> GenMsg {
-    gen_message(mt, src, &default_opts(), None)
+    gen_message(mt, src, &default_opts(), Some(&short_numbers))
 }
 
 /// Is `k` a field tag key (`20`, `50K`, …)?
@@ -64,10 +77,12 @@ fn nested_option(k: &str, v: &Value) -> Option<(String, Value)> {
 /// Occurrences of field values in a message-body JSON, as (sequence path, tag, value),
 /// in the order: top level first (sorted by tag, arrays in order), then each `#`
 /// element in array order.
+/// The fourth element says whether the value is an element of a JSON array (a repeated field: its
+/// elements must come in input order) or a member of its own.
 pub fn json_occurrences(
     v: &Value,
     path: &mut Vec<usize>,
-    out: &mut Vec<(Vec<usize>, String, Value)>,
+    out: &mut Vec<(Vec<usize>, String, Value, bool)>,
 ) {
     if let Value::Object(o) = v {
         for (k, val) in o {
@@ -77,14 +92,14 @@ pub fn json_occurrences(
                     Value::Array(a) => {
                         for x in a {
                             if !x.is_null() {
-                                out.push((path.clone(), tag.clone(), x.clone()));
+                                out.push((path.clone(), tag.clone(), x.clone(), true));
                             }
                         }
                     }
                     Value::Null => {}
                     other => match nested_option(&tag, other) {
-                        Some((t, v)) => out.push((path.clone(), t, v)),
-                        None => out.push((path.clone(), tag.clone(), other.clone())),
+                        Some((t, v)) => out.push((path.clone(), t, v, false)),
+                        None => out.push((path.clone(), tag.clone(), other.clone(), false)),
                     },
                 }
             }
